@@ -16,6 +16,7 @@ import FFVerif.Model.Sampler
 import FFVerif.Model.Seed
 import FFVerif.Model.Subset
 import FFVerif.Model.Sorm
+import FFVerif.Model.Spectral
 import FFVerif.Model.Miner
 import FFVerif.Props.C19
 import FFVerif.Props.C20
@@ -151,6 +152,16 @@ def handle (toks : List String) : Option String :=
     if a.size < 4 then none else
     let ks := (a.toList.drop 4)
     some s!"{(Sorm.breitung a[0]! a[1]! ks).toBits.toNat} {(Sorm.hrack a[1]! a[2]! a[3]! ks).toBits.toNat}"
+  | ["synth", fs, bw, next, n, comps] => do
+    -- comps: freq,psd,phase triples as float bits, `,`-separated
+    let fs ← parseFloats [fs]
+    let bw ← parseFloats [bw]
+    let next ← next.toNat?
+    let n ← n.toNat?
+    let c ← parseFloats ((comps.splitOn ",").filter (· ≠ ""))
+    let triples := (List.range (c.size / 3)).map (fun i => (c[3 * i]!, c[3 * i + 1]!, c[3 * i + 2]!))
+    let out := Spectral.synth fs[0]! bw[0]! next triples ((List.range n).map (fun (j : Nat) => j.toFloat))
+    some (",".intercalate (out.map (fun v => toString v.toBits.toNat)))
   | "c09lin" :: args => do
     let a ← parseFloats args
     if a.size = 5 then some s!"{(C09.linearResidual a[0]! a[1]! a[2]! a[3]! a[4]!).toBits.toNat}" else none
